@@ -55,10 +55,25 @@ def judge(ck, fails, origin):
 
 def run(ck):
     thorough = ck.tier == "thorough"
-    paths = protolib.record_all(ck, thorough)
-    if os.path.exists(os.path.join(os.path.dirname(__file__), "nesting.py")):
-        import nesting
-        paths.append(nesting.run(ck, thorough))
+    # the deep-nesting children (mostly waiting on single processes) run alongside the generators
+    import threading
+    import nesting
+    box = {}
+
+    def nest():
+        try:
+            box["path"] = nesting.run(ck, thorough)
+        except BaseException as ex:          # re-raised in the main thread
+            box["err"] = ex
+    th = threading.Thread(target=nest)
+    th.start()
+    try:
+        paths = protolib.record_all(ck, thorough)
+    finally:
+        th.join()
+    if "err" in box:
+        raise box["err"]
+    paths.append(box["path"])
     for p in paths:
         judge(ck, ck.validate("proto", "ProtoTrace", "ProtoTrace.cfg", p, timeout=3000), os.path.basename(p))
     ck.assumptions += ["'end-of-input report' = an error report that the next call repeats identically; linear bound 4*len+16 calls",
